@@ -41,6 +41,17 @@ type agentConnection struct {
 	m sync.Mutex
 }
 
+// newAgentConnection returns a connection whose reader is woken through a one-slot
+// channel: a wake-up sent while the reader is not waiting yet is kept, not lost.
+func newAgentConnection(laddr, raddr net.Addr, out chan interface{}) *agentConnection {
+	return &agentConnection{
+		Laddr: laddr,
+		Raddr: raddr,
+		in:    make(chan []byte, 1),
+		out:   out,
+	}
+}
+
 func (dc *agentConnection) receive(data []byte) {
 	dc.m.Lock()
 	defer dc.m.Unlock()
@@ -58,36 +69,32 @@ func (dc *agentConnection) receive(data []byte) {
 }
 
 func (dc *agentConnection) Read(b []byte) (int, error) {
-	dc.m.Lock()
-	if len(dc.buff) != 0 {
-		n := copy(b[:], dc.buff[0:])
-		dc.buff = dc.buff[n:]
-		dc.m.Unlock()
-		return n, nil
-	}
-	dc.m.Unlock()
-
 	after := noDeadline
 
 	if !dc.readTimeout.IsZero() {
 		after = time.After(time.Until(dc.readTimeout))
 	}
 
-	select {
-	case <-after:
-		return 0, ErrTimeout
-	case _, ok := <-dc.in:
-		if !ok {
-			log.Errorf("Error reading from channel, return EOF")
-			return 0, io.EOF
-		}
-
+	for {
 		dc.m.Lock()
-		n := copy(b[:], dc.buff[0:])
-		dc.buff = dc.buff[n:]
+		if len(dc.buff) != 0 {
+			n := copy(b[:], dc.buff[0:])
+			dc.buff = dc.buff[n:]
+			dc.m.Unlock()
+			return n, nil
+		}
 		dc.m.Unlock()
 
-		return n, nil
+		select {
+		case <-after:
+			return 0, ErrTimeout
+		case _, ok := <-dc.in:
+			if !ok {
+				log.Errorf("Error reading from channel, return EOF")
+				return 0, io.EOF
+			}
+			// woken: the buffer is looked at again (an earlier Read may have taken the bytes already)
+		}
 	}
 }
 
